@@ -487,3 +487,166 @@ def seq(n, kinds, jsel):
 
 REPS = representatives()
 REPS_LIST = [REPS[k] for k in sorted(REPS)]
+
+
+# ---- obligation family X: errors outside the classifiers' vocabulary, raised while another error was handled ---------
+# The expected verdict here does NOT come from the classifiers: the property text says "raise any other error
+# immediately without retrying", and an exception whose own class the classifiers do not know, with no declared cause,
+# is "any other error" whatever Python recorded as its implicit __context__.
+class UserDefinedError(Exception):
+    """a user-defined exception class no classifier names"""
+
+
+class _TimeProxy:
+    def __getattr__(self, name):
+        import time as _t
+        return getattr(_t, name)
+
+    @staticmethod
+    def sleep(secs):
+        _State.sleeps.append(secs)
+
+
+U.time = _TimeProxy()     # sync_retry_transient_errors sleeps with time.sleep
+
+PERMANENT_HTTP = (400, 405)    # inclusive range of client errors that are permanent by HTTP semantics (not 408 / 429)
+OUTSIDE = (
+    ('ValueError', lambda p: ValueError('bad input')),
+    ('KeyError', lambda p: KeyError('k')),
+    ('RuntimeError', lambda p: RuntimeError('r')),
+    ('UserDefinedError', lambda p: UserDefinedError('u')),
+    ('aiohttp.ClientResponseError(permanent status)', lambda p: aiohttp.ClientResponseError(_RI, (), status=p)),
+    ('hailtop.httpx.ClientResponseError(permanent status, empty body)',
+     lambda p: hailtop.httpx.ClientResponseError(_RI, (), body='', status=p)),
+)
+HELPERS = ('debug_string', 'plain', 'delayed_warnings', 'sync')
+
+
+def _strongest_params():
+    """per catalogue kind the (p, s) that makes it as retryable as it gets (transient > rate-limit > limited), found by
+    running the real classifiers over the integer constants of their source; used for the CONTEXT exception only"""
+    ints = {0}
+    for fn in CLASSIFIERS:
+        for n in ast.walk(_func_node(_TREE, fn)):
+            if isinstance(n, ast.Constant) and isinstance(n.value, int) and not isinstance(n.value, bool):
+                ints.add(n.value)
+    ints |= set(U.RETRYABLE_HTTP_STATUS_CODES) | set(U.RETRYABLE_ERRNOS)
+    out = []
+    for k, (name, ctor, ns) in enumerate(CATALOGUE):
+        best, bestscore = (0, 0), -1
+        for p in sorted(ints):
+            for s in range(ns):
+                e = ctor(p, s)
+                if not isinstance(e, Exception):
+                    score = 0
+                else:
+                    score = (4 * U.is_transient_error(e) + 2 * U.is_rate_limit_error(e)
+                             + 1 * U.is_limited_retries_error(e))
+                if score > bestscore:
+                    best, bestscore = (p, s), score
+        out.append(best)
+    return out
+
+
+STRONGEST = _strongest_params()
+
+
+def ctx_exc(ckind):
+    """the exception that was being handled: catalogue kind ckind (symbolic) at its most retryable parameters"""
+    e = None
+    for i in range(K):
+        if ckind == i:
+            e = CATALOGUE[i][1](STRONGEST[i][0], STRONGEST[i][1])
+    if e is None:
+        e = CATALOGUE[0][1](STRONGEST[0][0], STRONGEST[0][1])
+    return e
+
+
+def outside_exc(okind, status):
+    e = None
+    for i in range(len(OUTSIDE)):
+        if okind == i:
+            e = OUTSIDE[i][1](status)
+    if e is None:
+        e = OUTSIDE[0][1](status)
+    return e
+
+
+def _raise_in_handler(outer, ckind, depth, suppress):
+    """raise `outer` the way real code does: inside `except` blocks that are handling other errors, without `from`
+    (Python itself sets __context__), or with `from None` when suppress is true (sets __suppress_context__).
+    depth 0: no error is being handled; 1: the catalogue error; 2: a Wrapper raised while handling the catalogue error."""
+    if depth <= 0:
+        if suppress:
+            raise outer from None
+        raise outer
+    try:
+        raise ctx_exc(ckind)
+    except BaseException:
+        if depth == 1:
+            if suppress:
+                raise outer from None
+            raise outer
+        try:
+            raise Wrapper()
+        except Exception:
+            if suppress:
+                raise outer from None
+            raise outer
+
+
+def context_run(helper, okind, status, ckind, depth, suppress):
+    """one call of the operation fails with an outside-vocabulary error raised while handling a catalogue error;
+    every later call would succeed.  Returns (outcome, raised_is_outer, calls, sleeps, ctx_is_set)."""
+    outer = outside_exc(okind, status)
+    calls = [0]
+
+    def body():
+        i = calls[0]
+        calls[0] += 1
+        if i == 0:
+            _raise_in_handler(outer, ckind, depth, suppress)
+        return SENTINEL
+
+    async def f():
+        return body()
+
+    _State.sleeps = []
+    _State.delays = []
+    _State.jitter = []
+    _State.jitter_ok = True
+    outcome, raised = 'suspended', None
+    try:
+        if helper == 'sync':
+            v = U.sync_retry_transient_errors(body)
+            outcome = 'ok' if v is SENTINEL else 'wrong-value'
+        else:
+            if helper == 'debug_string':
+                coro = U.retry_transient_errors_with_debug_string('dbg', 0, f)
+            elif helper == 'plain':
+                coro = U.retry_transient_errors(f)
+            else:
+                coro = U.retry_transient_errors_with_delayed_warnings(0, f)
+            try:
+                coro.send(None)
+                coro.close()
+            except StopIteration as st:
+                outcome = 'ok' if st.value is SENTINEL else 'wrong-value'
+    except Exception as e:
+        outcome, raised = 'raised', e
+    ctx_set = outer.__context__ is not None and outer.__cause__ is None
+    return outcome, raised is outer, calls[0], len(_State.sleeps), ctx_set
+
+
+def context_check(helper, okind, status, ckind, depth, suppress):
+    """'' when the outside-vocabulary error is raised at once (one call, no sleep, the same object)"""
+    outcome, same, ncalls, nsleeps, ctx_set = context_run(helper, okind, status, ckind, depth, suppress)
+    if outcome != 'raised':
+        return f'{OUTSIDE[okind][0] if 0 <= okind < len(OUTSIDE) else okind} was retried ({ncalls} calls, outcome {outcome})'
+    if not same:
+        return 'a different exception object was raised'
+    if ncalls != 1:
+        return f'{ncalls} calls before the error was raised'
+    if nsleeps != 0:
+        return f'{nsleeps} sleeps before the error was raised'
+    return ''
